@@ -394,6 +394,7 @@ class Interp:
         self.functions_used = {}
         self.stubs_used = {}
         self.hooks = {}            # name -> python callable(interp, args) overriding MIR fns
+        self.observers = {}        # last path segment -> callable(interp, full name, args): called before the MIR body runs
         self.step_limit = 5_000_000
         self.steps = 0
         self.obligations = 0
@@ -1324,6 +1325,10 @@ class Interp:
     def call_body(self, mir, name, body, args, tyenv):
         if name in self.hooks:
             return self.hooks[name](self, args)
+        if self.observers:
+            ob = self.observers.get(split_path(name)[-1])
+            if ob is not None:
+                ob(self, name, args)
         self.functions_used[name] = mir.source_lines(name)
         fr = Frame()
         fr.body = body
